@@ -186,9 +186,9 @@ fn main() {
             std::thread::sleep(std::time::Duration::from_millis(500));
             let p = PROGRESS.load(Ordering::SeqCst);
             if p == last { same += 1; } else { same = 0; last = p; }
-            if same >= 6 {
+            if same >= 20 {     // 10 s without a single finished parse (a parse of <= 7 tokens takes microseconds; the margin is for a loaded machine)
                 let c = CURRENT.lock().map(|g| g.clone()).unwrap_or_default();
-                println!("FAIL\t{}\tC03 the parser did not return within 3 s (non-termination)", c);
+                println!("FAIL\t{}\tC03 the parser did not return within 10 s (non-termination)", c);
                 std::process::exit(0);
             }
         }
